@@ -762,8 +762,10 @@ def run(ck):
             neg = H.parents(vc).get(id(ia), {}).get('k') == 'MCall' and any(x.get('k') == 'Unary' and x.get('op') == 'Not' for x in H.ancestors(vc, ia))
             ok = exp_is_param and act_is_sig and neg
         ck.ob('R5.6', 'callback-parameter-direction', ok, L.loc(ia) if ia else '', 'incompatible iff !is_concrete_assignable(<declared parameter type>, <signal argument type>)')
-        gt = next((n for n in walk(vc['body']) if n.get('k') == 'If' and n['c'].get('k') == 'Binary' and n['c'].get('op') == 'Gt'), None)
-        ok = gt is not None and 'parameter_count' in pp(gt['c']['l']) and 'arguments_len' in pp(gt['c']['r']) and any(x.get('k') == 'Ret' and H.lit_value(x.get('e', {})) is False for x in walk(gt['then']))
+        gt = next((n for n in walk(vc['body']) if n.get('k') == 'If' and n['c'].get('k') == 'Binary' and n['c'].get('op') in ('Gt', 'Lt')), None)
+        # `parameter_count > arguments_len()` or, the same test, `arguments_len() < parameter_count`
+        big, small = (gt['c']['l'], gt['c']['r']) if gt is not None and gt['c']['op'] == 'Gt' else ((gt['c']['r'], gt['c']['l']) if gt is not None else ({}, {}))
+        ok = gt is not None and H.strip_refs(big).get('k') == 'Field' and H.strip_refs(big).get('f') == 'parameter_count' and H.strip_refs(small).get('k') == 'MCall' and H.strip_refs(small).get('m') == 'arguments_len' and any(x.get('k') == 'Ret' and H.lit_value(x.get('e', {})) is False for x in walk(gt['then']))
         ck.ob('R5.6', 'callback-parameter-count', ok, L.loc(gt) if gt else '', 'more declared parameters than signal arguments => error, false')
     # const reassignment, unsupported statements: "None => diagnosed" covers them (C04 R4.1); check the const arm explicitly
     we = next((f for f in L.fn_list if f['path'] == 'typedexpr::walk_expr'), None)
